@@ -66,6 +66,9 @@ class Prop(SeqProp):
     def mk(self, scores, intervals, label=""):
         s = " ".join(map(str, scores))
         ops = [("combos " + s).rstrip()] + [(f"mincomb {a} {b} " + s).rstrip() for a, b in intervals]
+        # how far the search walks into the stream (Model/ScanSteps.lean): it stops at the first sum beyond the interval / beyond
+        # the least sum found; intervals that end at or below the least sum (empty, inverted) cost one step
+        ops += [(f"minsteps {a} {b} " + s).rstrip() for a, b in intervals[:3]] + [(f"minsteps 1000 0 " + s).rstrip()]
         # a direct call on the scores as elements (repeats are the point), key = sum
         ops.append(("combosE " + s).rstrip())
         # other keys that never decrease when an element is appended (the property's hypothesis), not additive ones included
@@ -131,6 +134,22 @@ class Prop(SeqProp):
                     sc = [int(x) for x in w[3:]]
                     els = list(range(len(sc)))
                     out.append(fmt(g.min_combinations_in_interval_iter_sorted(els, sc, int(w[1]), int(w[2]))))
+                elif w[0] == "minsteps":
+                    sc = [int(x) for x in w[3:]]
+                    seen = [0]
+                    real = g.sorted_combinations
+
+                    def counting(*a, **k):
+                        for x in real(*a, **k):
+                            seen[0] += 1
+                            yield x
+
+                    g.sorted_combinations = counting
+                    try:
+                        g.min_combinations_in_interval_iter_sorted(list(range(len(sc))), sc, int(w[1]), int(w[2]))
+                    finally:
+                        g.sorted_combinations = real
+                    out.append(f"ret {seen[0]}")
                 else:
                     out.append("bad-op")
             except BaseException as e:  # noqa
@@ -144,6 +163,8 @@ class Prop(SeqProp):
             w = op.split()
             if not line.startswith("ret"):
                 return f"op {i} `{op}`: {line!r}"
+            if w[0] == "minsteps":
+                continue  # how far the search walks is a model-only observable (not in the property's statement)
             try:
                 got = parse_combos(line)
             except Exception:
